@@ -1,7 +1,195 @@
-//! C05 — not built yet.
-use vcore::Ctx;
+//! C05 — responses do not depend on the order in which concurrent resolvers complete.
+use crate::c04::{exec_gated, Flavour};
+use crate::execcmp::*;
+use vcore::{Case, Ctx, Src};
+use vgql::ast::*;
+use vgql::gentyped::*;
+use vgql::print::print_plain;
+use vgql::refexec::{execute, show_path, Quirks};
+use vgql::sch::Sch;
+use vgql::world::*;
+use vschemas::rt::Rt;
+use vschemas::z::{build_z, z_sch};
 
-pub fn run(_ctx: &mut Ctx) {
-    eprintln!("C05: check not built yet");
-    std::process::exit(2);
+fn permutations(n: usize) -> Vec<Vec<usize>> {
+    fn go(cur: &mut Vec<usize>, used: &mut Vec<bool>, n: usize, out: &mut Vec<Vec<usize>>) {
+        if cur.len() == n {
+            out.push(cur.clone());
+            return;
+        }
+        for i in 0..n {
+            if !used[i] {
+                used[i] = true;
+                cur.push(i);
+                go(cur, used, n, out);
+                cur.pop();
+                used[i] = false;
+            }
+        }
+    }
+    let mut out = vec![];
+    go(&mut vec![], &mut vec![false; n], n, &mut out);
+    out
+}
+
+fn signature(resp: &async_graphql::Response) -> (String, Vec<String>) {
+    let mut errs: Vec<String> = resp_errors(resp).into_iter().map(|(p, l, _)| format!("{}@{:?}", show_path(&p), l.iter().map(|x| (x.line, x.col)).collect::<Vec<_>>())).collect();
+    errs.sort();
+    (serde_json::to_string(&resp_data(resp)).unwrap(), errs)
+}
+
+fn case(s: &mut dyn Src, fl: &Flavour, sch: &Sch, tcfg: &TypedCfg, exhaustive: bool, counters: &std::cell::Cell<(u64, u64)>) -> Case {
+    let dynamic = matches!(fl, Flavour::Dynamic);
+    let mut world = gen_world(sch, s, &WorldCfg { null_composite_items: !dynamic, ..WorldCfg::default() });
+    let mut td = gen_typed_doc(sch, s, tcfg);
+    let text = print_plain(&mut td.doc);
+    let base = match execute(sch, &td.doc, td.op_name.as_deref(), &td.vars, &world, Quirks::default()) {
+        Ok(w) => w,
+        Err(e) => return Case::fail(text, format!("HARNESS: reference executor: {:?}", e)),
+    };
+    // failing resolvers only at NULLABLE positions (the statement's domain: failing non-null siblings race)
+    let nullable: Vec<(usize, String)> = {
+        let mut v: Vec<(usize, String)> = vec![];
+        for t in &base.touches {
+            if !t.ty.is_nn() && !v.iter().any(|(n, f)| *n == t.node && *f == t.field) {
+                v.push((t.node, t.field.clone()));
+            }
+        }
+        v
+    };
+    let mut n_faults = 0;
+    if !nullable.is_empty() {
+        for _ in 0..s.choose(3) {
+            let (n, f) = nullable[s.choose(nullable.len())].clone();
+            world.faults.insert((n, f), Fault::ResolverError);
+            n_faults += 1;
+        }
+    }
+    let want = match execute(sch, &td.doc, td.op_name.as_deref(), &td.vars, &world, Quirks::default()) {
+        Ok(w) => w,
+        Err(e) => return Case::fail(text, format!("HARNESS: reference executor: {:?}", e)),
+    };
+    let head = format!("world: {}\nquery: {}\nvariables: {}", world.show(), text, vars_json(&td.vars));
+    // the resolver invocations that may be gated: distinct response paths of the (faulted) execution
+    let mut paths: Vec<String> = vec![];
+    for t in &want.touches {
+        let p = show_path(&t.path);
+        if !paths.contains(&p) {
+            paths.push(p);
+        }
+    }
+    if paths.is_empty() {
+        return Case::discard("no resolver runs");
+    }
+    let in_list = paths.iter().any(|p| p.split('.').any(|seg| seg.chars().all(|c| c.is_ascii_digit())));
+    let mut first: Option<(String, Vec<String>)> = None;
+    let mut runs = 0u64;
+    let mut check = |resp: &async_graphql::Response, order: &[String]| -> Result<(), String> {
+        compare(&want, resp).map_err(|e| format!("completion order {:?}: {}", order, e))?;
+        let sig = signature(resp);
+        match &first {
+            None => first = Some(sig),
+            Some(f) => {
+                if *f != sig {
+                    return Err(format!("completion order {:?}: response differs from the first order: {:?} vs {:?}", order, sig, f));
+                }
+            }
+        }
+        Ok(())
+    };
+    let k;
+    if exhaustive {
+        // choose up to 6 gated resolvers; all their priority orders
+        let mut chosen: Vec<String> = vec![];
+        let want_k = if s.bool() { paths.len().min(6) } else { paths.len().min(2 + s.choose(5)).min(6) };
+        let mut pool = paths.clone();
+        while chosen.len() < want_k && !pool.is_empty() {
+            let i = s.choose(pool.len());
+            chosen.push(pool.remove(i));
+        }
+        k = chosen.len();
+        for perm in permutations(k) {
+            let rt = Rt::new(world.clone());
+            rt.gate_only(chosen.iter().cloned());
+            let prio: Vec<&String> = perm.iter().map(|i| &chosen[*i]).collect();
+            let r = exec_gated(fl, sch, &rt, &text, &td, |pending| {
+                // open the pending gate with the highest priority
+                let mut best = 0;
+                let mut best_rank = usize::MAX;
+                for (i, (_, label)) in pending.iter().enumerate() {
+                    let rank = prio.iter().position(|p| *p == label).unwrap_or(usize::MAX - 1);
+                    if rank < best_rank {
+                        best_rank = rank;
+                        best = i;
+                    }
+                }
+                best
+            });
+            runs += 1;
+            match r {
+                Ok((resp, order)) => {
+                    if let Err(e) = check(&resp, &order) {
+                        return Case::fail(head, e);
+                    }
+                }
+                Err(e) => return Case::fail(head, e),
+            }
+        }
+    } else {
+        // every resolver gated, generated opening orders
+        k = paths.len();
+        for o in 0..8 {
+            let rt = Rt::new(world.clone());
+            let r = exec_gated(fl, sch, &rt, &text, &td, |pending| match o {
+                0 => 0,
+                1 => pending.len() - 1,
+                _ => s.choose(pending.len()),
+            });
+            runs += 1;
+            match r {
+                Ok((resp, order)) => {
+                    if let Err(e) = check(&resp, &order) {
+                        return Case::fail(head, e);
+                    }
+                }
+                Err(e) => return Case::fail(head, e),
+            }
+        }
+    }
+    let c = counters.get();
+    counters.set((c.0 + runs, c.1 + if exhaustive { 1 } else { 0 }));
+    Case::pass(head)
+        .nontrivial((k >= 3 && n_faults >= 1) || in_list)
+        .class(format!("gates-{}", if k > 6 { "7+".to_string() } else { k.to_string() }))
+        .class_if(n_faults > 0, "with-failing-nullable-resolver")
+        .class_if(in_list, "gates-in-list-items")
+        .class(if dynamic { "dynamic" } else { "static" })
+        .class(if exhaustive { "all-orders" } else { "generated-orders" })
+}
+
+pub fn run(ctx: &mut Ctx) {
+    ctx.rule = "queries on static Z and its dynamic mirror whose resolvers wait on gates of a deterministic executor; for documents with <=6 chosen gated resolvers ALL priority orders \
+                of gate opening are run (k! runs), beyond that 8 generated orders with every resolver gated; failing resolvers only at nullable positions; data and the error multiset \
+                (path, locations) must be identical across orders and equal to the reference executor. A case = one document with all its orders; non-trivial = >=3 gates with >=1 failing \
+                resolver, or gates inside list items; distinct by rendered case".into();
+    ctx.assume("failing resolvers are injected only at nullable positions (two failing non-null siblings legitimately race under the specification)");
+    ctx.assume("repeated response keys are excluded while C04-F1 is open (separately executed occurrences have separate gates with the same label)");
+    let z = build_z(|b| b);
+    let zsch = z_sch(&z);
+    let mut cfg = crate::c02::typed_cfg(ctx, "C05");
+    cfg.ops = vec![OpKind::Query];
+    cfg.max_depth = 3;
+    cfg.max_width = 3;
+    cfg.repeats = false;
+    let docs = ctx.tier.pick(1_000, 30_000);
+    let counters = std::cell::Cell::new((0u64, 0u64));
+    ctx.stream("all-orders-static", docs, 600, |s| case(s, &Flavour::Static(&z), &zsch, &cfg, true, &counters));
+    ctx.stream("all-orders-dynamic", docs, 600, |s| case(s, &Flavour::Dynamic, &zsch, &cfg, true, &counters));
+    ctx.stream("generated-orders-static", docs * 2, 900, |s| case(s, &Flavour::Static(&z), &zsch, &cfg, false, &counters));
+    ctx.stream("generated-orders-dynamic", docs * 2, 900, |s| case(s, &Flavour::Dynamic, &zsch, &cfg, false, &counters));
+    let (runs, ex) = counters.get();
+    ctx.note("gated_executions", serde_json::json!(runs));
+    ctx.note("documents_with_all_orders_enumerated", serde_json::json!(ex));
+    ctx.exhaustive = Some(true);
+    ctx.note("exhaustive_scope", serde_json::json!("per document of the all-orders streams: every priority order of its <=6 chosen gated resolvers"));
 }
